@@ -11,13 +11,13 @@ ROLES = {
           "importbind", "g_assign", "g_read", "nl_assign", "nl_read",
           # compound roles
           "param_assign", "param_aug", "assign_rebind_after", "late_bind", "param_walrus", "nl_aug", "g_aug", "fortarget_rebind",
-          "destructure", "assign_in_branch"],
+          "destructure", "assign_in_branch", "walrus_in_comp"],
     "C": ["none", "read", "assign", "aug", "fortarget", "comptarget", "defbind", "importbind", "g_assign", "g_read",
           "nl_assign", "nl_read", "preread_assign", "assign_rebind_after", "destructure", "nl_aug"],
-    "L": ["none", "read", "param", "paramdef", "walrus"],
+    "L": ["none", "read", "param", "paramdef", "walrus", "walrus_in_comp", "param_walrus_in_comp"],
     "G": ["none", "read", "comptarget", "walrus", "comptarget_nested_iter"],
     "M": ["none", "assign", "aug", "walrus", "fortarget", "comptarget", "defbind", "importbind", "preread_none",
-          "assign_rebind_after", "destructure"],
+          "assign_rebind_after", "destructure", "walrus_in_comp"],
 }
 REDUCED = {"F": ["none", "read", "assign", "param", "nl_assign", "g_assign", "param_assign"],
            "C": ["none", "read", "assign", "nl_assign", "g_assign"],
@@ -54,10 +54,12 @@ def bind_lines(role, sid):
         "assign_rebind_after": ["x = %d" % v], "late_bind": [],
         "destructure": ["(x, _y%d), *_z%d = (%d, 1), 2" % (sid, sid, v)],
         "assign_in_branch": ["if log(%d,'t',1):" % sid, "    x = %d" % v, "else:", "    x = %d" % (v + 1)],
+        "walrus_in_comp": ['log(%d,"wc",[(x := %d + _q%d) for _q%d in [0, 1]])' % (sid, v, sid, sid)],
     }[role]
 
 
-PARAM_ROLES = {"param": "x", "paramdef": "x=x", "param_assign": "x", "param_aug": "x", "param_walrus": "x"}
+PARAM_ROLES = {"param": "x", "paramdef": "x=x", "param_assign": "x", "param_aug": "x", "param_walrus": "x",
+               "param_walrus_in_comp": "x"}
 
 
 def reads_after(role):
@@ -121,6 +123,8 @@ def render_scope(kind, role, children, g, indent, name):
         parts = []
         if role == "walrus":
             parts.append('log(%d,"w",(x := %d))' % (sid, sid * 10))
+        if role in ("walrus_in_comp", "param_walrus_in_comp"):
+            parts.append('log(%d,"wc",[(x := %d + _q%d) for _q%d in [0, 1]])' % (sid, sid * 10, sid, sid))
         if reads_after(role):
             parts.append('log(%d,"a",x)' % sid)
         for i, (ck, cr, cc) in enumerate(children):
@@ -128,7 +132,7 @@ def render_scope(kind, role, children, g, indent, name):
             if reads_after(role):
                 parts.append('log(%d,"b%d",x)' % (sid, i))
         parts.append('log(%d,"end",0)' % sid)
-        arg = "1" if role == "param" else ""
+        arg = "1" if role in ("param", "param_walrus_in_comp") else ""
         return ["%s%s = lambda %s: [%s]" % (p, name, params, ", ".join(parts))], ["%s%s(%s)" % (p, name, arg)]
     if kind == "G":
         return [], [p + render_expr(kind, role, children, g)]
@@ -142,12 +146,14 @@ def render_expr(kind, role, children, g):
         parts = []
         if role == "walrus":
             parts.append('log(%d,"w",(x := %d))' % (sid, sid * 10))
+        if role in ("walrus_in_comp", "param_walrus_in_comp"):
+            parts.append('log(%d,"wc",[(x := %d + _q%d) for _q%d in [0, 1]])' % (sid, sid * 10, sid, sid))
         if reads_after(role):
             parts.append('log(%d,"a",x)' % sid)
         for i, (ck, cr, cc) in enumerate(children):
             parts.append(render_expr(ck, cr, cc, g))
         parts.append('log(%d,"end",0)' % sid)
-        arg = "1" if role == "param" else ""
+        arg = "1" if role in ("param", "param_walrus_in_comp") else ""
         return "(lambda %s: [%s])(%s)" % (params, ", ".join(parts), arg)
     if kind == "G":
         parts = []
